@@ -31,6 +31,7 @@
 //!   R14 (with R10h) `V.into_iter().rev()` -> `verif_rev_vec(V)`
 //!   R21 (`//@name_call METHOD K` + ghost text) the K-th call `X.METHOD(.., CLOSURE)` is evaluated in front of its statement with the closure and the result bound to names
 //!   R20 an item (nested fn) declared inside the extracted body is dropped from the body text
+//!   R23 (`//@try_desugar N`) the N-th `EXPR?` -> `(match EXPR { Ok(v) => v, Err(e) => return Err(From::from(e)) })`
 //!   R22 (`inline=CALLEE@FILE@IMPL`) the call `self.CALLEE(.., closure)` is replaced by CALLEE's body from /repo with the closure's body substituted for its calls
 //!   R19d (`lower=fold_axis`) `X.fold_axis(ax, init, |acc, elem| BLOCK)` -> per lane, an accumulator cloned from init threaded through the lane
 //!   R19c (`lower=map_axis_mut`) `X.map_axis_mut(ax, |lane| EXPR)` -> loop over lane positions storing EXPR as result j
@@ -156,7 +157,7 @@ fn load_template(path: &Path, mode: &str, items: &mut Vec<TItem>) {
                     cur.as_mut().unwrap_or_else(|| die(4, format!("{}:{}: stray source_sig", pname, ln))).source_sig =
                         Some(tail.to_string());
                 }
-                "sig" | "spec" | "loop" | "at" | "closure" | "binop" | "rename_call" | "replace_text" | "name_call" => {
+                "sig" | "spec" | "loop" | "at" | "closure" | "binop" | "rename_call" | "replace_text" | "name_call" | "try_desugar" => {
                     let c = cur.as_mut().unwrap_or_else(|| die(4, format!("{}:{}: stray section", pname, ln)));
                     let (pos, kv) = parse_kv(tail);
                     c.sections.push(Section { kind: word.to_string(), args: pos, tags: kv.get("tags").cloned(), kv: kv.clone(), text: String::new() });
@@ -475,6 +476,8 @@ struct BodyScan {
     binops: BTreeMap<String, Vec<((usize, usize), (usize, usize))>>,
     // method-call identifiers by name: byte range of the identifier
     method_idents: BTreeMap<String, Vec<(usize, usize)>>,
+    // `EXPR?` in pre-order: (start of EXPR, range of the `?` token)
+    tries: Vec<(usize, (usize, usize))>,
     // method calls by name: (range of the whole call expression, range of the last argument, start of the enclosing statement)
     method_calls: BTreeMap<String, Vec<((usize, usize), Option<(usize, usize)>, usize)>>,
     // R11c loops: loop ordinal -> offset just after the closure's block (where the lanes have been put back: anchor `loop_tail`)
@@ -787,6 +790,11 @@ impl<'a, 'ast> Visit<'ast> for Scanner<'a> {
             self.scan.cmp_kinds.push(cmp.to_string());
         }
         syn::visit::visit_expr_binary(self, b);
+    }
+    fn visit_expr_try(&mut self, t: &'ast syn::ExprTry) {
+        let (a, _) = self.src.range(t.expr.span());
+        self.scan.tries.push((a, self.src.range(t.question_token.span())));
+        syn::visit::visit_expr_try(self, t);
     }
     fn visit_expr_closure(&mut self, c: &'ast syn::ExprClosure) {
         let (hs, _) = self.src.range(c.span());
@@ -1409,6 +1417,16 @@ fn main() {
                                 edits.push((a, b, seq, to.clone(), json!({"kind": "rewrite", "rule": "R17", "fn": id, "tags": body_tags})));
                                 seq += 1;
                             }
+                        }
+                        "try_desugar" => {
+                            // R23 (opt-in): `//@try_desugar N`: the N-th `EXPR?` (pre-order) is written out as the match that the language defines
+                            // it to be for `Result`: `(match EXPR { Ok(__v) => __v, Err(__e) => return Err(From::from(__e)) })`.  Verus gives the
+                            // conversion inside `?` no specification; written as a call, `From::from` carries the one of the local impl
+                            let n: usize = s.args.get(0).and_then(|x| x.parse().ok()).unwrap_or_else(|| die(4, format!("bad try ordinal in {}", id)));
+                            let (a, (qa, qb)) = scan.tries.get(n).cloned().unwrap_or_else(|| die(3, format!("lost-anchor: `?` #{} not found in {}", n, id)));
+                            edits.push((a, a, 390_000, "(match ".to_string(), json!({"kind": "rewrite", "rule": "R23", "fn": id, "tags": body_tags})));
+                            edits.push((qa, qb, seq, " { Ok(__v) => __v, Err(__e) => return Err(From::from(__e)) })".to_string(), json!({"kind": "rewrite", "rule": "R23", "fn": id, "tags": body_tags})));
+                            seq += 1;
                         }
                         "binop" => {
                             // R16 (opt-in): `//@binop OP N FNAME`: the N-th binary expression `L OP R` of the body becomes `FNAME(L, R)`
